@@ -321,9 +321,15 @@ type RunOpts struct {
 
 // RunScenario executes one scenario in a fresh bubble with a fresh server and returns what was
 // observed.  Deterministic given the scenario (GOMAXPROCS=1).
+// firstObs is the observation of the first simulated run of the scenario being judged (trace dumps)
+var firstObs *Obs
+
 func RunScenario(t *testing.T, sc *Scenario, custom func(w *World)) (obs *Obs) {
 	prepareProcess(t)
 	obs = &Obs{Extra: map[string]interface{}{}}
+	if firstObs == nil {
+		firstObs = obs
+	}
 	hub.reset()
 	n := simnet.New()
 	simnet.Current = n
@@ -342,6 +348,7 @@ func RunScenario(t *testing.T, sc *Scenario, custom func(w *World)) (obs *Obs) {
 		}()
 		synctest.Test(t, func(t *testing.T) {
 			w := &World{T: t, Sc: sc, Net: n, Obs: obs, Start: time.Now()}
+			n.Step = &w.step
 			if custom != nil {
 				custom(w)
 			} else {
@@ -584,7 +591,7 @@ func (w *World) collect() {
 			if b := ep.Take(); len(b) > 0 {
 				co.Recv = append(co.Recv, b...)
 				co.Chunks = append(co.Chunks, Chunk{Step: w.step, Data: b})
-				w.tracef("a%d recv len=%d", i, len(b))
+				w.tracef("a%d recv", i) // (no length: replies may quote host paths of varying length)
 			}
 			if !co.ServerClosed && ep.PeerClosed() {
 				co.ServerClosed = true
